@@ -2,6 +2,7 @@ import Hive.Proofs.SerixCanonical
 import Hive.Proofs.SerixPrim
 import Hive.Proofs.SerixCanonicalValidators
 import Hive.Proofs.SerixCanonicalObjects
+import Hive.Proofs.SerixCanonicalPrim
 import Hive.Gen.C03_Consts
 import Hive.Gen.C03_Skel
 /-!
@@ -537,6 +538,24 @@ theorem C03_validator_example :
     feed .lexNd {} [[1], [1, 0], [1, 0], [0], [2]] = [none, none, some .arrUnique, some .arrOrder, none] ∧
     chainFeed (chainInit { noDups := true, one8 := true }) [[7, 1], [7, 2], [7, 1]] = [none, some .arrTypeUnique, some .arrUnique] := by
   decide
+
+/-- **Reverse direction at the level of the chains, for every array rule.**  Whatever the validating
+`ReadSequenceOfObjects` accepts — every prefix width, every combination of bounds, no-duplicates, lexical order, at most
+one of each type byte / word — `WriteSliceOfByteSlices` with the same rules (with or without the lexical-ordering mode
+bit) writes back to exactly the bytes consumed. -/
+theorem C03_prim_seq_canonical (lp : LP) (r : Rules) (srt : Bool) (rem : Bytes) (total off : Nat) (xs : List Bytes) (n : Nat)
+    (h : rOp rem total off (.seq lp r true) = .done (some (.items xs)) n none) :
+    wOp (.seq lp { r with autoSort := srt } true xs) = .done (rem.take n) none :=
+  prim_seq_canonical lp r srt rem total off xs n h
+
+/-- The hypothesis is satisfiable (two sorted one-byte items behind a one-byte count, trailing bytes left alone), and an
+unsorted input is refused behind the second item. -/
+theorem C03_prim_seq_canonical_example :
+    rOp [2, 1, 5, 1, 7, 9, 9] 7 0 (.seq .u8 { lex := true, noDups := true, max := 3 } true) =
+      .done (some (.items [[1, 5], [1, 7]])) 5 none ∧
+    rOp [2, 1, 7, 1, 5, 9, 9] 7 0 (.seq .u8 { lex := true, noDups := true, max := 3 } true) =
+      .done (some (.items [[1, 7], [1, 5]])) 5 (some .arrOrder) := by
+  constructor <;> rfl
 
 /-- **The payload length marker, one layer below serix** (`ReadPayload` / `WritePayload`, model
 `Hive/Model/SerixC03Objects.lean`): a payload the reader accepts is written back to exactly the bytes consumed — the uint32
